@@ -84,6 +84,15 @@ def Cur.refLoc : Cur → Loc
         | some e => e.loc
         | none => 0
 
+/-- `at_alias`: the node made visible by the last `peek` is written as an alias at this position — its first
+event is the first event of a freshly injected anchor buffer (the frame is pushed by the pump that serves
+that event).  Recorded buffers are already alias-expanded: `ReplayEvents` keeps the default `false`. -/
+def Cur.atAlias : Cur → Bool
+  | .live p _ => match p.inject with
+    | fr :: _ => fr.idx == 1
+    | [] => false
+  | .replay .. => false
+
 /-- use site kept for the replayed payload of a tag-selected variant: `Some(self.ev.reference_location())
 .filter(|r| *r != node_location)` — the alias token when the tagged node is delivered by a replay -/
 def tagUseSite (c : Cur) (l : Loc) : Option Loc := if c.refLoc != l then some c.refLoc else none
@@ -1029,6 +1038,9 @@ def nextKey : Nat → Cfg → (Ty ⊕ Unit) → Cur → MA → R (KeyStep × MA)
               if found then nextKey fuel cfg kseed c m
               else .ok (.done, { m with flushingMerges := false }) c
         | .ok (some _) c =>
+          -- `let key_is_alias = self.ev.at_alias()` before the capture: an alias key is captured from the
+          -- anchor's buffer, its events carry the anchor's location (a flag only: stack frame size)
+          let keyIsAlias := c.atAlias
           match capture fuel c with
           | .err e c => .err e c
           | .ok keyNode c =>
@@ -1050,7 +1062,9 @@ def nextKey : Nat → Cfg → (Ty ⊕ Unit) → Cur → MA → R (KeyStep × MA)
                 | .error => if isDup then 1 else 0
                 | .firstWins => if isDup then 2 else 0
                 | .lastWins => 0
-              if act == 1 then .err ⟨"DuplicateMappingKey", keyNode.loc, 0⟩ c
+              -- the exhausted replay frame of an alias key stays until the next pump: `reference_location()` after the
+              -- capture is still the alias token
+              if act == 1 then .err ⟨"DuplicateMappingKey", if keyIsAlias then c.refLoc else keyNode.loc, 0⟩ c
               else if act == 2 then
                 match skipOneNode fuel c with
                 | .err e c => .err e c
